@@ -8,6 +8,7 @@ from collections import namedtuple, OrderedDict
 from qexpy.settings import UnitStyle
 from copy import deepcopy
 from fractions import Fraction
+from numbers import Rational
 
 import qexpy.settings as sts
 import qexpy.settings.literals as lit
@@ -98,6 +99,12 @@ def construct_unit_string(units: Dict[str, int]) -> str:
         The string representation of the units
 
     """
+
+    # exponents are printed through Fraction(), which takes ints, floats and Fractions but not a
+    # numpy float that is no float subclass (x ** numpy.float32(0.5) leaves such an exponent)
+    units = OrderedDict(
+        (unit, power if isinstance(power, (Rational, float)) else float(power))
+        for unit, power in units.items())
 
      # pack full pre-defined compound units if applicable
     for unit, expression in UNIT_DEFINITIONS.items():
